@@ -10,6 +10,7 @@ static GLOBAL: history::Counting = history::Counting;
 
 fn main() {
     let args: Vec<String> = std::env::args().skip(1).collect();
+    common::start_watchdog();
     let code = match args.first().map(|s| s.as_str()) {
         Some("run-jobs") => jobs::main(&args[1..]),
         Some("edges") => edges::main(&args[1..]),
